@@ -12,7 +12,7 @@ TRUSTED_BASE = c08.TRUSTED_BASE
 ASSUMPTIONS = ["bytes are UDP payload bytes captured on the harness-owned relay sockets"]
 RULE = ("raw peers (no client object) send valid, repeated, undersized, oversized, wrong-version, config-refused and server-full SYNs and stray frames of every other type "
         "to a server, then wait up to 25 s while the server steps; per address the running totals of bytes sent by the server and bytes received from the address are "
-        "compared after every step: sent < received whenever anything was sent, and nothing is sent in response to an undersized request. Non-trivial: the server replied.")
+        "compared after every step: sent < received whenever anything was sent, and nothing is sent in response to an undersized request. Round-7 family: servers with idle timeouts of minutes to "none", one full-size request per address, ten minutes of silence. Non-trivial: the server replied.")
 
 def streams(rng, tier, ctx):
     n = 24 if tier == "quick" else 300
@@ -23,7 +23,12 @@ def streams(rng, tier, ctx):
             r = rng.fork()
             it.op("=== gen%d" % k)
             sim = EpSim(r, inter=it)
-            sim.srv(r.pick([8, 2, 1]), r.pick([8, 1]), r.pick([0, 1]), dict(DEFAULT_EP, maxpkt=r.pick([1_000_000, 100_000])))
+            longidle = (k % 6 == 4)
+            # round-7 family "long idle timeout": servers configured for slow links (active_timeout_ms of minutes, hours, none);
+            # one full-size request per address, then silence for ten minutes - the retransmission budget towards an address
+            # that never answers must not depend on the configuration
+            tmo = r.pick([120_000, 600_000, 3_600_000, 2**40]) if longidle else 20000
+            sim.srv(r.pick([8, 2, 1]), r.pick([8, 1]), r.pick([0, 1]), dict(DEFAULT_EP, maxpkt=r.pick([1_000_000, 100_000]), timeout=tmo))
             npeers = r.range(1, 4)
             for i in range(npeers):
                 sim.peer(i)
@@ -46,7 +51,12 @@ def streams(rng, tier, ctx):
                         sim.raw("c2s", i, hx, {"kind": "stray", "len": len(hx) // 2})
                     if j % r.pick([5, 20, 60]) == 0:
                         sim.tick += 1; sim.set_time(sim.time + r.pick([1_000_000, 50_000_000])); sim.sstep(nets)
-            for round_ in range(r.range(5, 40) if not flood else 0):
+            if longidle:
+                for i in range(npeers):
+                    sim.raw("c2s", i, codec.op("enc syn 3 %d 2000000 1000000 1000000" % (7 + i)), {"kind": "syn", "len": 1472})
+                for _ in range(320):
+                    sim.tick += 1; sim.set_time(sim.time + r.pick([2_000_000_000, 2_000_000_000, 1_900_000_000])); sim.sstep(nets)
+            for round_ in range(r.range(5, 40) if not (flood or longidle) else 0):
                 for i in range(npeers):
                     if r.chance(1, 2):
                         kind = r.weighted([("syn", 5), ("syn_again", 3), ("short", 3), ("badver", 2), ("badcfg", 2), ("stray", 4), ("long", 1), ("noise", 1)])
